@@ -43,6 +43,7 @@ type chainCase struct {
 	FlipAfter bool   `json:"flipAfter"` // the container switch has the other value while everything is registered
 	FailAt    int    `json:"failAt"`    // > 0: the underlying writer fails from that byte on (client gone)
 	Alt       bool   `json:"alt"`       // the second of two requests goes to the other route on the same method and path
+	CondPanic bool   `json:"condPanic"` // a condition function of the route panics during selection (under the read lock)
 }
 
 type chainPlan struct {
@@ -413,7 +414,15 @@ func buildChainContainer(cs chainCase, instrument bool) *restful.Container {
 	case "off":
 		rb.ContentEncodingEnabled(false)
 	}
-	ws.Route(rb.If(func(r *http.Request) bool { return r.Header.Get("X-Alt") == "" }))
+	ws.Route(rb.If(func(r *http.Request) bool {
+		if r.Header.Get("X-Cond-Panic") != "" {
+			if l := logFor(r); l != nil {
+				l.add(devent{K: "panic", F: 0})
+			}
+			panic("target-panic-in-condition")
+		}
+		return r.Header.Get("X-Alt") == ""
+	}))
 	ab := ws.GET("/r").If(func(r *http.Request) bool { return r.Header.Get("X-Alt") != "" }).To(func(req *restful.Request, resp *restful.Response) {
 		l := logFor(req.Request)
 		if !ownsRequest("alt", req.Request) {
@@ -580,7 +589,11 @@ func runChainCase(tw *traceWriter, cs chainCase, rid *int) {
 		if cs.Alt && rep == 1 && routedLike {
 			altHdr = "1" // same method and path, the other route (chosen by a condition)
 		}
-		hr, err := buildRequest(method, path, [][2]string{{"X-Rid", id}, {"Accept-Encoding", cs.AE}, {"X-Alt", altHdr}}, nil, false)
+		condHdr := ""
+		if cs.CondPanic && rep == 0 && routedLike {
+			condHdr = "1"
+		}
+		hr, err := buildRequest(method, path, [][2]string{{"X-Rid", id}, {"Accept-Encoding", cs.AE}, {"X-Alt", altHdr}, {"X-Cond-Panic", condHdr}}, nil, false)
 		if err != nil {
 			fatal("bad request: %v", err)
 		}
@@ -628,7 +641,11 @@ func runChainCase(tw *traceWriter, cs chainCase, rid *int) {
 				wknown = false
 			}
 		}
-		tw.emit(map[string]interface{}{"e": "dreq", "rid": *rid, "n": nRun(cs), "rec": cs.Rec, "case": cs, "rep": rep})
+		nExp := nRun(cs)
+		if condHdr != "" {
+			nExp = 0 // selection panics: no filter runs
+		}
+		tw.emit(map[string]interface{}{"e": "dreq", "rid": *rid, "n": nExp, "rec": cs.Rec, "case": cs, "rep": rep})
 		nacq, nrel := 0, 0
 		wroteBeforePanic := false
 		for _, e := range l.evs {
@@ -817,6 +834,15 @@ func randomChainCase(r *rand.Rand, mode string) chainCase {
 		cs.Conc = 8
 	}
 	cs.Alt = r.Intn(3) == 0
+	if mode == "panic" && r.Intn(8) == 0 {
+		cs.CondPanic = true
+		for i := range cs.Sc {
+			if cs.Sc[i] == "pb" || cs.Sc[i] == "pa" || cs.Sc[i] == "stop" {
+				cs.Sc[i] = "pass"
+			}
+		}
+		cs.Tgt = "ok"
+	}
 	if mode == "enc" {
 		cs.FlipAfter = r.Intn(3) == 0
 		if r.Intn(6) == 0 {
